@@ -1065,11 +1065,28 @@ func (P *Prog) parallelParamProver(fc *factCtx, path []ast.Node, info *types.Inf
 // neither is reassigned (nor has its address taken) in it, the function is only ever called
 // directly, and at every call site in the module the guard facts give
 // 0 <= <argument for I> < len(<argument for X>).
+// Also X[len(X)-c] (c a constant >= 1) with X such a parameter: then every call site has to
+// stand under a guard that gives len(<argument for X>) >= c.
 func (P *Prog) callerGuardProver(path []ast.Node, info *types.Info, X, I ast.Expr) (string, bool) {
 	xid, ok1 := X.(*ast.Ident)
 	iid, ok2 := I.(*ast.Ident)
-	if !ok1 || !ok2 {
+	if !ok1 {
 		return "", false
+	}
+	// fromEnd: the index is len(X)-c
+	fromEnd := int64(0)
+	if !ok2 {
+		be, ok := I.(*ast.BinaryExpr)
+		if !ok || be.Op != token.SUB {
+			return "", false
+		}
+		arg, isLen := isLenOf(info, be.X)
+		aid, isID := arg.(*ast.Ident)
+		c, isLit := intLit(info, be.Y)
+		if !isLen || !isID || !isLit || c < 1 || info.Uses[aid] == nil || info.Uses[aid] != info.Uses[xid] {
+			return "", false
+		}
+		fromEnd, iid = c, xid
 	}
 	var decl *ast.FuncDecl
 	for _, n := range path {
@@ -1131,6 +1148,15 @@ func (P *Prog) callerGuardProver(path []ast.Node, info *types.Info, X, I ast.Exp
 	if reassigned || fobj == nil {
 		return "", false
 	}
+	// a method can also be reached through an interface or as a method value: those calls do not
+	// mention it by name in call position and are not among the call sites looked at below
+	if sfn := P.fnBySyntax()[decl]; sfn != nil && P.CG != nil {
+		for _, e := range P.CG.In[sfn] {
+			if e.Kind != "static" {
+				return "", false
+			}
+		}
+	}
 	sites, okAll := 0, true
 	for _, pkg := range P.Pkgs {
 		for _, file := range pkg.Syntax {
@@ -1169,7 +1195,11 @@ func (P *Prog) callerGuardProver(path []ast.Node, info *types.Info, X, I ast.Exp
 					rev = append(rev, stack[k])
 				}
 				cfc := newFactCtx(pkg.TypesInfo, rev)
-				if !cfc.idxBelowLen(call.Args[ii], call.Args[xi]) || !cfc.nonNeg(call.Args[ii], 0) {
+				if fromEnd > 0 {
+					if !cfc.lenGreater(call.Args[xi], fromEnd-1) {
+						okAll = false
+					}
+				} else if !cfc.idxBelowLen(call.Args[ii], call.Args[xi]) || !cfc.nonNeg(call.Args[ii], 0) {
 					okAll = false
 				}
 				return true
@@ -1178,6 +1208,9 @@ func (P *Prog) callerGuardProver(path []ast.Node, info *types.Info, X, I ast.Exp
 	}
 	if !okAll || sites == 0 {
 		return "", false
+	}
+	if fromEnd > 0 {
+		return fmt.Sprintf("%s is a parameter never reassigned here, %s is only called directly, and at each of its %d call site(s) a dominating guard gives len(<argument for %s>) >= %d: the index len(%s)-%d is in range", xid.Name, decl.Name.Name, sites, xid.Name, fromEnd, xid.Name, fromEnd), true
 	}
 	return fmt.Sprintf("%s and %s are parameters never reassigned here, %s is only called directly, and at each of its %d call site(s) a dominating guard gives 0 <= <argument for %s> < len(<argument for %s>)", xid.Name, iid.Name, decl.Name.Name, sites, iid.Name, xid.Name), true
 }
@@ -2394,6 +2427,9 @@ func pkgKey(key string) string {
 	if strings.HasPrefix(construct, "range ") && !strings.HasPrefix(construct, "range over") {
 		construct = "range " + construct[strings.LastIndex(construct, " ")+1:]
 	}
+	// a slice whose low bound is written 0 is the slice with the low bound left out
+	// (`acc[0:k]` and `acc[:k]` are one construct)
+	construct = strings.ReplaceAll(construct, "[0:", "[:")
 	return pkg + ":" + construct
 }
 
@@ -3334,10 +3370,13 @@ func (r *Run) searchedElementAssert(ta *ssa.TypeAssert) (string, bool) {
 // whose payload is lo.Range(n), whose accumulator is made with the same n slots, whose every
 // successful worker return hands back a value with F stored from the worker's index, and whose
 // reducer hands its accumulator on unchanged. Computed on the values: neither the name of the
-// carrying field nor the position of the closures matters.
+// carrying field nor the position of the closures matters. The reducer is a function literal
+// (judged at the AsyncMapReduce call of the function it is written in) or a declared function —
+// then every mention of it in the module has to be the reducer argument of such a call, and the
+// conditions are asked of each of them.
 func (r *Run) positionalReducerProver(fn *ssa.Function, e ast.Expr) (string, bool) {
 	ie, ok := e.(*ast.IndexExpr)
-	if !ok || fn.Parent() == nil || len(fn.Params) != 2 {
+	if !ok || len(fn.Params) != 2 || fn.Signature.Recv() != nil {
 		return "", false
 	}
 	var ia *ssa.IndexAddr
@@ -3358,10 +3397,6 @@ func (r *Run) positionalReducerProver(fn *ssa.Function, e ast.Expr) (string, boo
 		return "", false
 	}
 	carrier := fieldOf(fa)
-	call, mapF, redF := r.amrSite(fn.Parent())
-	if call == nil || mapF == nil || redF != fn || len(mapF.Params) != 1 || len(call.Call.Args) != 4 {
-		return "", false
-	}
 	// the reducer hands on the accumulator it was given
 	for _, ret := range returnsOf(fn) {
 		vals := retVals(ret)
@@ -3369,21 +3404,96 @@ func (r *Run) positionalReducerProver(fn *ssa.Function, e ast.Expr) (string, boo
 			return "", false
 		}
 	}
+	type amrUse struct {
+		call *ssa.Call
+		mapF *ssa.Function
+	}
+	var uses []amrUse
+	if fn.Parent() != nil {
+		call, mapF, redF := r.amrSite(fn.Parent())
+		if call == nil || mapF == nil || redF != fn {
+			return "", false
+		}
+		uses = append(uses, amrUse{call, mapF})
+	} else {
+		// a declared function: whoever mentions it hands it to AsyncMapReduce as the reducer (a
+		// direct call, a value kept in a variable or handed elsewhere is a use with an
+		// accumulator and a value nothing is known about; so is a caller outside the module)
+		if fn.Object() == nil || fn.Object().Exported() {
+			return "", false
+		}
+		for _, site := range r.P.Funcs {
+			for _, ins := range allInstrs(site) {
+				mentioned := false
+				for _, op := range ins.Operands(nil) {
+					if f, ok := (*op).(*ssa.Function); ok && r.P.declared(f) == fn {
+						mentioned = true
+					}
+				}
+				if !mentioned {
+					continue
+				}
+				c, ok := ins.(*ssa.Call)
+				if !ok || len(c.Call.Args) != 4 {
+					return "", false
+				}
+				sc := c.Call.StaticCallee()
+				if sc == nil || fnName(origin(sc)) != "common.AsyncMapReduce" {
+					return "", false
+				}
+				for k, a := range c.Call.Args {
+					if f, ok := a.(*ssa.Function); ok && r.P.declared(f) == fn && k != 3 {
+						return "", false
+					}
+				}
+				ms, _ := r.P.CG.funcValues(c.Call.Args[2], map[ssa.Value]bool{})
+				if len(ms) != 1 {
+					return "", false
+				}
+				uses = append(uses, amrUse{c, ms[0]})
+			}
+		}
+		if len(uses) == 0 {
+			return "", false
+		}
+	}
+	nRet := 0
+	for _, u := range uses {
+		n, ok := r.positionalFanOut(u.call, u.mapF, carrier)
+		if !ok {
+			return "", false
+		}
+		nRet += n
+	}
+	where := ""
+	if fn.Parent() == nil {
+		where = "; " + fn.Name() + " is mentioned only as the reducer of " + strconv.Itoa(len(uses)) + " such AsyncMapReduce call(s)"
+	}
+	return "positional reducer: the workers run over lo.Range(n), the accumulator is made with the same n slots, every successful worker result carries the worker's index in ." + carrier.Name() + " (" + strconv.Itoa(nRet) + " return(s) checked) and the reducer hands its accumulator on" + where, true
+}
+
+// positionalFanOut: the AsyncMapReduce call runs its worker mapF over lo.Range(n) with an
+// accumulator of the same n slots, and every successful return of the worker hands back a value
+// that carries the worker's index in the field carrier; the number of returns checked.
+func (r *Run) positionalFanOut(call *ssa.Call, mapF *ssa.Function, carrier *types.Var) (int, bool) {
+	if len(mapF.Params) != 1 || len(call.Call.Args) != 4 {
+		return 0, false
+	}
 	// payload lo.Range(n), accumulator make(T, n): the same n
 	rc, ok := unwrap(call.Call.Args[0]).(*ssa.Call)
 	if !ok || !strings.HasSuffix(strings.SplitN(calleeName(&rc.Call), "[", 2)[0], "lo.Range") || len(rc.Call.Args) != 1 {
-		return "", false
+		return 0, false
 	}
 	mk, ok := unwrap(call.Call.Args[1]).(*ssa.MakeSlice)
 	if !ok || !sameCount(rc.Call.Args[0], mk.Len) {
-		return "", false
+		return 0, false
 	}
 	// every successful worker return carries the worker's index in the field
 	idx := ssa.Value(mapF.Params[0])
 	nRet := 0
 	for _, wr := range r.workerReturns(mapF, idx, 0) {
 		if wr.val == nil {
-			return "", false
+			return 0, false
 		}
 		if !isNilConst(unwrap(wr.err)) {
 			continue // a failed worker: AsyncMapReduce does not reduce its value
@@ -3391,14 +3501,11 @@ func (r *Run) positionalReducerProver(fn *ssa.Function, e ast.Expr) (string, boo
 		// (a return of a function the worker forwards the result of is judged there, with the
 		// parameter the index is passed for)
 		if wr.idx == nil || !r.carriesIndex(unwrap(wr.val), wr.idx, wr.ret, carrier, 0) {
-			return "", false
+			return 0, false
 		}
 		nRet++
 	}
-	if nRet == 0 {
-		return "", false
-	}
-	return "positional reducer: the workers run over lo.Range(n), the accumulator is made with the same n slots, every successful worker result carries the worker's index in ." + carrier.Name() + " (" + strconv.Itoa(nRet) + " return(s) checked) and the reducer hands its accumulator on", true
+	return nRet, nRet > 0
 }
 
 // pureResultOf: the call goes to a module function that does nothing but compute its single
